@@ -10,6 +10,23 @@
 
 #include "stream.h"
 
+/* next message; enlarge a full input buffer the decoder has no scratch space in */
+static int streamRecv(MPT_STRUCT(stream) *srm)
+{
+	int ret = mpt_queue_recv(&srm->_rd);
+	
+	if (ret == MPT_ERROR(MissingBuffer)) {
+		int flags = mpt_stream_flags(&srm->_info);
+		/* only allocated input buffers can grow */
+		if ((flags & MPT_STREAMFLAG(ReadBuf))
+		    && !(flags & MPT_STREAMFLAG(ReadMap))
+		    && mpt_queue_prepare(&srm->_rd.data, 64)) {
+			ret = mpt_queue_recv(&srm->_rd);
+		}
+	}
+	return ret;
+}
+
 /*!
  * \ingroup mptStream
  * \brief dispatch next message
@@ -31,7 +48,7 @@ extern int mpt_stream_dispatch(MPT_STRUCT(stream) *srm, int (*cmd)(void *, const
 	
 	/* use existing or new message */
 	if (srm->_rd._state.data.msg < 0) {
-		if ((ret = mpt_queue_recv(&srm->_rd)) < 0) {
+		if ((ret = streamRecv(srm)) < 0) {
 			return ret;
 		}
 		if (!ret) {
@@ -54,7 +71,7 @@ extern int mpt_stream_dispatch(MPT_STRUCT(stream) *srm, int (*cmd)(void *, const
 		ret &= MPT_EVENTFLAG(Flags);
 	}
 	/* further message on queue */
-	if (mpt_queue_recv(&srm->_rd) > 0) {
+	if (streamRecv(srm) > 0) {
 		ret |= MPT_EVENTFLAG(Retry);
 	}
 	return ret;
